@@ -191,6 +191,7 @@ def node_kinds(n):
 def src_range_text(n):
     r = n.get("range", {})
     b, e = r.get("begin", {}), r.get("end", {})
+    b = b.get("expansionLoc", b); e = e.get("expansionLoc", e)      # tokens that come from a macro: where the macro is used
     return b.get("offset"), (e.get("offset", 0) + e.get("tokLen", 0))
 
 
